@@ -34,12 +34,17 @@ def _is_wild(name):
     return len(name) >= 2 and name[0] == "_" and name[1].isupper()
 
 
+def _dump(node):
+    return ast.dump(node).replace("ctx=Store()", "ctx=Load()").replace(
+        "ctx=Del()", "ctx=Load()")
+
+
 def match(pattern, node, binds=None):
     """Structural match of ``node`` against ``pattern`` (both ast nodes)."""
     binds = {} if binds is None else binds
     if isinstance(pattern, ast.Name) and _is_wild(pattern.id):
         if pattern.id in binds:
-            return binds if ast.dump(binds[pattern.id]) == ast.dump(node) \
+            return binds if _dump(binds[pattern.id]) == _dump(node) \
                 else None
         binds[pattern.id] = node
         return binds
